@@ -10,7 +10,9 @@ tie    : correspondence of the Lean model (lean/Pyunicorn/Model/Window.lean)
 search : oracle independent of the model: direct boolean selection on the full
          arrays in `Fraction`, shape agreement of every derived series,
          per-phase means of `anomaly()`, `anomaly + phase_mean[phase] ==
-         observable`, fresh twin object, global restore
+         observable`, fresh twin object, global restore, `set_window(window())`,
+         objects nested on the library's own arrays, power-of-two rescaled twins,
+         shuffled anomalies, selected phases / months incl. wrapping and error cases
 """
 import contextlib
 import io
@@ -24,6 +26,7 @@ import numpy as np
 from . import common
 
 TOL = 1e-9
+TOL32 = 1e-5     # float32 observables: NumPy accumulates their means in float32
 WKEYS = ("time_min", "time_max", "lat_min", "lat_max", "lon_min", "lon_max")
 
 
@@ -82,7 +85,17 @@ def win_of_token(tok):
 _NUM = re.compile(r"-?\d+(?:/\d+)?")
 
 
-def same(model, impl, tol):
+def tol_of(case, exact):
+    """(relative tolerance, scale): 0 on the exact-integer stream; on the dyadic stream 1e-9
+    for float64 / int64 observables, 1e-5 relative to max |observable| for float32 ones"""
+    if exact:
+        return 0, 1
+    if case["dtype"] == "float32":
+        return TOL32, max([1.0] + [abs(x) for r in case["obs"] for x in r])
+    return TOL, 1
+
+
+def same(model, impl, tol, scale=1):
     """structure identical, numbers equal (tol = 0) or within tol"""
     if model == impl:
         return True
@@ -93,7 +106,7 @@ def same(model, impl, tol):
     a = [Fraction(s) for s in _NUM.findall(model)]
     b = [Fraction(s) for s in _NUM.findall(impl)]
     return len(a) == len(b) and all(
-        abs(x - y) <= tol * max(1, abs(x)) for x, y in zip(a, b))
+        abs(x - y) <= tol * max(scale, abs(x)) for x, y in zip(a, b))
 
 
 # --------------------------------------------------------------------------
@@ -108,26 +121,106 @@ def quiet():
             yield
 
 
-def make_obj(case, window="init"):
+def is_climate(case):
+    return case["cls"] in ("ClimateData", "SmallClimate")
+
+
+def conv_window(w, btype):
+    """the same numbers as Python floats / ints / NumPy scalars of either width"""
+    if w is None or btype == "float":
+        return w
+    out = {}
+    for n, (k, v) in enumerate(w.items()):
+        bt = btype if btype != "mixed" else ("float", "np32", "int", "np64")[n % 4]
+        if bt == "int":
+            out[k] = int(v) if float(v).is_integer() else v
+        elif bt == "np32":
+            out[k] = np.float32(v)
+        elif bt == "np64":
+            out[k] = np.float64(v)
+        else:
+            out[k] = v
+    return out
+
+
+def lay_out(a, layout):
+    """caller arrays in different memory layouts (same values)"""
+    if layout == "F":
+        return np.asfortranarray(a)
+    if layout == "strided":
+        big = np.zeros((2 * a.shape[0], 3 * a.shape[1]), dtype=a.dtype)
+        big[::2, ::3] = a
+        return big[::2, ::3]
+    return a
+
+
+def make_obj(case, window="init", base=None, plain=False, scale=None):
+    """the object of a case.  `base`: other full data (nested objects); `plain`: always the
+    plain constructors on fresh arrays (twins); `scale = (k, j)`: observable * 2^k,
+    time axis (and time bounds) * 2^j"""
     from pyunicorn.core import Data, GeoGrid
     from pyunicorn.climate import ClimateData
-    grid = GeoGrid(np.array(case["time"], dtype=float), np.array(case["lat"], dtype=float),
-                   np.array(case["lon"], dtype=float), 2)
-    obs = np.array(case["obs"], dtype=case["dtype"]).reshape(len(case["time"]), len(case["lat"]))
     if window == "init":
         window = None if case["init"] == "G" else win_of_token(case["init"])
-    if case["cls"] == "Data":
+    if case["cls"].startswith("Small") and not plain and base is None:
+        assert window is None
+        return ClimateData.SmallTestData() if case["cls"] == "SmallClimate" else Data.SmallTestData()
+    b = base or case
+    gdt = "float64" if plain else case.get("gdtype", "float64")
+    time = np.array(b["time"], dtype=float)
+    obs = np.array(b["obs"], dtype=case["dtype"]).reshape(len(b["time"]), len(b["lat"]))
+    if scale is not None:
+        k, j = scale
+        obs = obs * 2.0 ** k
+        time = time * 2.0 ** j
+        if window is not None:
+            window = dict(window, time_min=window["time_min"] * 2.0 ** j,
+                          time_max=window["time_max"] * 2.0 ** j)
+    grid = GeoGrid(time.astype(gdt), np.array(b["lat"], dtype=gdt), np.array(b["lon"], dtype=gdt), 2)
+    if not plain:
+        obs = lay_out(obs, case.get("layout", "C"))
+        window = conv_window(window, case.get("btype", "float"))
+    if not is_climate(case):
         return Data(obs, grid, window=window, silence_level=2)
     return ClimateData(obs, grid, case["c"], anomalies=bool(case["flag"]), window=window,
                        silence_level=2)
 
 
-def do_op(obj, tok):
+def nest_obj(case, obj):
+    """a new object on the arrays the library holds for the current window"""
+    from pyunicorn.core import Data
+    from pyunicorn.climate import ClimateData
+    if not is_climate(case):
+        return Data(obj.observable(), obj.grid, silence_level=2)
+    return ClimateData(obj.observable(), obj.grid, case["c"], anomalies=bool(case["flag"]),
+                       silence_level=2)
+
+
+def shuffle_perms(seed, T, N):
+    """the permutations `numpy.random.shuffle` applies to N successive float arrays of
+    length T after `numpy.random.seed(seed)` (the draws depend on the length only)"""
+    np.random.seed(seed)
+    perms = []
+    for _ in range(N):
+        p = np.arange(T, dtype=float)
+        np.random.shuffle(p)
+        perms.append([int(x) for x in p])
+    return perms
+
+
+def ints_of(s):
+    return [int(x) for x in s.split(",")] if s != "-" else []
+
+
+def do_op(obj, tok, case):
     """one operation on the real object -> canonical output string"""
     try:
         with quiet():
             if tok == "G":
                 obj.set_global_window()
+                return "ok"
+            if tok == "Wc":
+                obj.set_window(obj.window())
                 return "ok"
             if tok == "X":
                 obj.cache_clear()
@@ -147,24 +240,27 @@ def do_op(obj, tok):
             if tok == "pi":
                 return enc_imat(obj.phase_indices())
             if tok.startswith("W="):
-                obj.set_window(win_of_token(tok))
+                obj.set_window(conv_window(win_of_token(tok), case.get("btype", "float")))
                 return "ok"
             if tok.startswith("sp="):
-                sel = [int(s) for s in tok[3:].split(",")] if tok[3:] != "-" else []
-                return ",".join(str(int(x)) for x in obj.indices_selected_phases(sel)) or "-"
+                return ",".join(str(int(x)) for x in obj.indices_selected_phases(ints_of(tok[3:]))) or "-"
+            if tok.startswith("im="):
+                return ",".join(str(int(x)) for x in obj.indices_selected_months(ints_of(tok[3:]))) or "-"
             if tok.startswith("am="):
-                sel = [int(s) for s in tok[3:].split(",")] if tok[3:] != "-" else []
-                return enc_mat(obj.anomaly_selected_months(sel))
+                return enc_mat(obj.anomaly_selected_months(ints_of(tok[3:])))
+            if tok.startswith("sh:"):
+                np.random.seed(int(tok[3:]))
+                return enc_mat(obj.shuffled_anomaly())
     except (ValueError, ZeroDivisionError, IndexError, NotImplementedError) as e:
         return "raise:" + type(e).__name__
     raise AssertionError("unknown op " + tok)
 
 
-def request_of(case):
+def request_of(case, ops=None):
     return " ".join(
         ["run", str(case["c"]), str(int(case["flag"])), case["init"],
          enc_vec(case["time"]), enc_vec(case["lat"]), enc_vec(case["lon"]),
-         ";".join(enc_vec(r) for r in case["obs"])] + case["ops"])
+         ";".join(enc_vec(r) for r in case["obs"])] + (case["ops"] if ops is None else ops))
 
 
 # --------------------------------------------------------------------------
@@ -253,7 +349,7 @@ def _check_state(ctx, case, obj, view, upto, exact, after):
     if [fr(w[k]) for k in WKEYS] != exp_w:
         ok = bad("window", "selection", "window() is not the bounding box of the selected samples",
                  observed=[float(w[k]) for k in WKEYS], expected=[float(x) for x in exp_w])
-    if cls != "ClimateData":
+    if not is_climate(case):
         return ok
     c, flag = case["c"], bool(case["flag"])
     with quiet():
@@ -273,7 +369,7 @@ def _check_state(ctx, case, obj, view, upto, exact, after):
         if pi.tolist() != exp_pi:
             ok = bad("phase_indices", "value", "phase_indices() are not the complete-year indices "
                      "of each phase", observed=pi.tolist(), expected=exp_pi)
-    tol = Fraction(0) if exact else Fraction(TOL)
+    tol = Fraction(tol_of(case, exact)[0])
     scale = max([1] + [abs(x) for r in view["obs"] for x in r])
 
     def close(a, b):
@@ -323,38 +419,74 @@ def _check_state(ctx, case, obj, view, upto, exact, after):
     return ok
 
 
+def expected_indices(c, Tn, tok):
+    """definition of indices_selected_phases / indices_selected_months: the sorted indices,
+    within the complete years, of the selected phases (negative numbers count from the end
+    of the cycle); the exception the call must raise otherwise"""
+    sel = ints_of(tok[3:])
+    if tok[:2] in ("am", "im"):
+        if c == 360:
+            sel = [m * 30 + d for m in sel for d in range(30)]
+        elif c != 12:
+            return "raise:NotImplementedError"
+    if any(p < -c or p >= c for p in sel):
+        return "raise:IndexError"
+    return sorted(p % c + y * c for p in sel for y in range(Tn // c))
+
+
 def check_selection(ctx, case, obj, view, tok, out, upto):
-    """indices_selected_phases / anomaly_selected_months against their definition:
-    the sorted indices of the selected phases within the complete years"""
+    """indices_selected_phases / indices_selected_months / anomaly_selected_months
+    against their definition (values and error cases)"""
     c, Tn = case["c"], len(view["time"])
-    sel = [int(x) for x in tok[3:].split(",")] if tok[3:] != "-" else []
-    if tok.startswith("am=") and c == 360:
-        sel = [m * 30 + d for m in sel for d in range(30)]
-    exp = sorted(p + y * c for p in sel for y in range(Tn // c))
-    if tok.startswith("sp="):
-        got = [int(x) for x in out.split(",")] if out != "-" else []
-        good = got == exp
+    exp = expected_indices(c, Tn, tok)
+    method = {"sp": "indices_selected_phases", "im": "indices_selected_months",
+              "am": "anomaly_selected_months"}[tok[:2]]
+    if isinstance(exp, str) or out.startswith("raise:"):
+        good = out == exp
+        kind = "error-case"
+    elif tok[:2] in ("sp", "im"):
+        good = ints_of(out) == exp
+        kind = "value"
     else:
         with quiet():
             an = np.asarray(obj.anomaly())
         if an.shape[0] != Tn:
             return      # inconsistent state: reported by check_state
         good = out == enc_mat(an[exp, :] if exp else an[:0, :])
+        kind = "value"
     if not good:
-        ctx.fail({"class": case["cls"], "method": "indices_selected_phases" if tok[:2] == "sp"
-                  else "anomaly_selected_months", "kind": "value"},
-                 f"{tok}: result is not the selection of the complete-year indices {exp}",
+        ctx.fail({"class": case["cls"], "method": method, "kind": kind},
+                 f"{tok}: result {out[:80]} is not the selection of the complete-year indices "
+                 f"{str(exp)[:120]}",
                  dict(case, ops=case["ops"][:upto], observed=out[:300]))
 
 
-def twin_check(ctx, case, obj, w, upto):
+def check_shuffled(ctx, case, obj, view, tok, out, upto):
+    """shuffled_anomaly(): shape of anomaly(), every column a rearrangement of the column"""
+    with quiet():
+        an = np.asarray(obj.anomaly())
+    rows = [] if out.split(":", 1)[1] == "-" else out.split(":", 1)[1].split(";")
+    shape = tuple(int(x) for x in out.split(":", 1)[0].split("x"))
+    ok = shape == an.shape
+    if ok and shape[0] and shape[1]:
+        sh = [[Fraction(x) for x in r.split(",")] for r in rows]
+        for j in range(shape[1]):
+            if sorted(r[j] for r in sh) != sorted(fr(x) for x in an[:, j]):
+                ok = False
+    if not ok:
+        ctx.fail({"class": case["cls"], "method": "shuffled_anomaly", "kind": "value"},
+                 f"shuffled_anomaly() (shape {shape}) is not a column-wise rearrangement of "
+                 f"anomaly() (shape {an.shape})", dict(case, ops=case["ops"][:upto]))
+
+
+def twin_check(ctx, case, obj, base, w, upto):
     """a fresh object constructed directly with the current window must show
     the same derived series (detects results that did not follow a window change)"""
     try:
         with quiet():
-            twin = make_obj(case, window=w)
+            twin = make_obj(case, window=w, base=base, plain=True)
             pairs = [("observable", obj.observable(), twin.observable())]
-            if case["cls"] == "ClimateData":
+            if is_climate(case):
                 pairs += [("phase_mean", obj.phase_mean(), twin.phase_mean()),
                           ("anomaly", obj.anomaly(), twin.anomaly())]
     except Exception as e:  # noqa
@@ -375,10 +507,50 @@ def twin_check(ctx, case, obj, w, upto):
     return True
 
 
+def rescale_check(ctx, case, obj, base, w, upto):
+    """observable * 2^k and time axis * 2^j are exact in floating point: a fresh object on
+    the rescaled data, windowed by the rescaled window, must expose exactly the rescaled
+    view, phase means and anomalies (independent of the model and of exact arithmetic)"""
+    k, j = case["scale"]
+    try:
+        with quiet():
+            twin = make_obj(case, window=w, base=base, plain=True, scale=(k, j))
+            pairs = [("observable", np.asarray(obj.observable(), dtype=float) * 2.0 ** k,
+                      twin.observable()),
+                     ("grid", np.asarray(obj.grid.grid()["time"], dtype=float) * 2.0 ** j,
+                      np.asarray(twin.grid.grid()["time"], dtype=float))]
+            if is_climate(case):
+                pairs += [("phase_mean", obj.phase_mean() * 2.0 ** k, twin.phase_mean()),
+                          ("anomaly", obj.anomaly() * 2.0 ** k, twin.anomaly())]
+    except Exception as e:  # noqa
+        ctx.fail({"class": case["cls"], "method": "__init__", "kind": "rescaled-twin-raise",
+                  "error": type(e).__name__},
+                 f"an object on the data rescaled by 2^{k} (time 2^{j}) raised "
+                 f"{type(e).__name__}: {e}", dict(case, ops=case["ops"][:upto], window=w))
+        return
+    for nm, a, b in pairs:
+        a, b = np.asarray(a), np.asarray(b)
+        if a.shape != b.shape or not np.array_equal(a, b, equal_nan=True):
+            ctx.fail({"class": case["cls"], "method": nm, "kind": "rescaling",
+                      "anomalies_flag": bool(case["flag"])},
+                     f"{nm}() of the data rescaled by 2^{k} (time axis by 2^{j}) is not the "
+                     f"rescaled {nm}() (shapes {a.shape} / {b.shape})",
+                     dict(case, ops=case["ops"][:upto], window=w))
+            return
+
+
+def float_view(view):
+    return {"time": [float(x) for x in view["time"]], "lat": [float(x) for x in view["lat"]],
+            "lon": [float(x) for x in view["lon"]],
+            "obs": [[float(x) for x in r] for r in view["obs"]]}
+
+
 def run_case(ctx, case, exact, oracle=True):
-    """execute the history on the real code; returns the canonical answer"""
+    """execute the history on the real code; returns (canonical answer, the operations as
+    sent to the model)"""
+    base = {k: case[k] for k in ("time", "lat", "lon", "obs")}
     w0 = GLOBAL if case["init"] == "G" else win_of_token(case["init"])
-    view = expected_view(case, w0)
+    view = expected_view(base, w0)
     try:
         with quiet():
             obj = make_obj(case)
@@ -386,49 +558,84 @@ def run_case(ctx, case, exact, oracle=True):
         if view is not None and oracle:
             ctx.fail({"class": case["cls"], "method": "__init__", "kind": "raise"},
                      "constructor raised ValueError on a non-empty window", dict(case))
-        return "raise:ValueError"
+        return "raise:ValueError", list(case["ops"])
     if view is None:
         if oracle:
             ctx.fail({"class": case["cls"], "method": "__init__", "kind": "no-raise"},
                      "constructor accepted an empty window", dict(case))
-        return "bad"
+        return "bad", list(case["ops"])
     cur_w = None if case["init"] == "G" else w0
-    outs = ["ok"]
+    outs, concrete = ["ok"], []
     if oracle:
         check_state(ctx, case, obj, view, 0, exact, after="constructor")
     for n, tok in enumerate(case["ops"]):
-        out = do_op(obj, tok)
+        if tok == "N":
+            # continue with a new object built on the library's arrays of the current window
+            concrete.append(tok)
+            try:
+                with quiet():
+                    obj = nest_obj(case, obj)
+                outs.append("ok")
+            except ValueError:
+                outs.append("raise:ValueError")
+                if oracle:
+                    ctx.fail({"class": case["cls"], "method": "__init__", "kind": "nested-raise"},
+                             "constructor raised on observable() / grid of an existing object",
+                             dict(case, ops=case["ops"][:n + 1]))
+                continue
+            base, cur_w = float_view(view), None
+            if oracle and check_state(ctx, case, obj, view, n + 1, exact, after="nested-constructor"):
+                twin_check(ctx, case, obj, base, cur_w, n + 1)
+            continue
+        out = do_op(obj, tok, case)
         outs.append(out)
+        if tok.startswith("sh:"):
+            T, N = len(view["time"]), len(view["lat"])
+            concrete.append("sh=" + ";".join(",".join(map(str, p))
+                                             for p in shuffle_perms(int(tok[3:]), T, N)))
+        else:
+            concrete.append(tok)
         if not oracle:
             continue
-        if tok.startswith(("sp=", "am=")) and not out.startswith("raise:"):
+        if tok.startswith(("sp=", "am=", "im=")):
             check_selection(ctx, case, obj, view, tok, out, n + 1)
+        if tok.startswith("sh:") and not out.startswith("raise:"):
+            check_shuffled(ctx, case, obj, view, tok, out, n + 1)
         changed, after = False, "cache_clear"
-        if tok == "G" or tok.startswith("W="):
-            w = GLOBAL if tok == "G" else win_of_token(tok)
-            nv = expected_view(case, w)
+        if tok in ("G", "Wc") or tok.startswith("W="):
+            if tok == "G":
+                w = GLOBAL
+            elif tok == "Wc":
+                # the bounding box of the exposed samples, as window() must report it
+                w = dict(zip(WKEYS, (float(f(view[k])) for k in ("time", "lat", "lon")
+                                     for f in (min, max))))
+            else:
+                w = win_of_token(tok)
+            nv = expected_view(base, w)
+            method = {"G": "set_global_window", "Wc": "set_window(window())"}.get(tok, "set_window")
             if nv is None:
                 if out != "raise:ValueError":
-                    ctx.fail({"class": case["cls"], "method": "set_window", "kind": "no-raise"},
+                    ctx.fail({"class": case["cls"], "method": method, "kind": "no-raise"},
                              "empty window accepted", dict(case, ops=case["ops"][:n + 1]))
                 # the object must stay usable and consistent with its previous window
                 after = "rejected-window"
             else:
                 if out != "ok":
-                    ctx.fail({"class": case["cls"], "method": "set_window", "kind": "raise"},
+                    ctx.fail({"class": case["cls"], "method": method, "kind": "raise"},
                              f"non-empty window rejected: {out}", dict(case, ops=case["ops"][:n + 1]))
                     continue
                 view, cur_w = nv, (None if tok == "G" else w)
-                after = "set_global_window" if tok == "G" else "set_window"
+                after = method
             changed = True
             if tok == "G" and nv is not None:
                 # restoring the global window restores the original view
-                full = expected_view(case, GLOBAL)
-                assert full == nv
+                assert expected_view(base, GLOBAL) == nv
         if changed or tok == "X":
             if check_state(ctx, case, obj, view, n + 1, exact, after=after):
-                twin_check(ctx, case, obj, cur_w, n + 1)
-    return "|".join(outs)
+                twin_check(ctx, case, obj, base, cur_w, n + 1)
+    if oracle and case.get("scale") and case["dtype"] == "float64":
+        rescale_check(ctx, case, obj, base, cur_w, len(case["ops"]))
+    return "|".join(outs), concrete
 
 
 # --------------------------------------------------------------------------
@@ -475,11 +682,35 @@ def gen_bounds(rng, xs, step):
     return a, b, kind
 
 
+_SMALL = {}
+
+
+def small_data(cls):
+    """the library's own test data set, read through the public API"""
+    if cls not in _SMALL:
+        with quiet():
+            obj = make_obj({"cls": cls, "init": "G"})
+            g = obj.grid.grid()
+            _SMALL[cls] = {"time": [float(x) for x in g["time"]], "lat": [float(x) for x in g["lat"]],
+                           "lon": [float(x) for x in g["lon"]],
+                           "obs": [[float(x) for x in r] for r in obj.observable()]}
+    return _SMALL[cls]
+
+
 def gen_case(ctx, rng, exact, quick):
-    cls = "ClimateData" if rng.random() < 0.85 else "Data"
+    r0 = rng.random()
+    cls = "ClimateData" if r0 < 0.85 else "Data"
+    if not exact and r0 > 0.95:
+        cls = rng.choice(["SmallClimate", "SmallData"])
     T = rng.choice([1, 2, 3, 4, 5, 6, 7, 8, 9, 10, 11, 12, 13, 14] if quick else list(range(1, 27)))
     N = rng.choice([1, 2, 3, 4, 5, 6, 7])
-    if rng.random() < 0.12:
+    daily = cls == "ClimateData" and rng.random() < (0.015 if quick else 0.01)
+    if daily:
+        # standardised daily data: the month -> day expansion of indices_selected_months
+        c = 360
+        T = rng.choice([359, 360, 361, 400, 719, 720, 725])
+        N = rng.choice([1, 2])
+    elif rng.random() < 0.12:
         c = 12
         T = max(T, rng.choice([12, 13, 24, 25, 30]))
     else:
@@ -500,11 +731,24 @@ def gen_case(ctx, rng, exact, quick):
         amp = 20
         if L * amp * T < 2 ** 24 and rng.random() < 0.4:
             dtype = "float32"
+        elif rng.random() < 0.08:
+            dtype = "int64"
         obs = [[float(L * rng.randrange(-amp, amp + 1)) for _ in range(N)] for _ in range(T)]
     else:
         den = rng.choice([1, 4, 64, 1024])
         obs = [[rng.randrange(-2000, 2001) / den for _ in range(N)] for _ in range(T)]
+        # caller arrays of other types whose means are NOT representable exactly
+        r = rng.random()
+        if den == 1 and r < 0.5:
+            dtype = "int64"
+        elif r < 0.25:
+            dtype = "float32"
     flag = 1 if (cls == "ClimateData" and rng.random() < 0.3) else 0
+    if cls.startswith("Small"):
+        sd = small_data(cls)
+        time, lat, lon, obs = sd["time"], sd["lat"], sd["lon"], sd["obs"]
+        T, N, c, tstep, flag, dtype = len(time), len(lat), 5, 1.0, 0, "float64"
+    climate = cls in ("ClimateData", "SmallClimate")
 
     def gen_window():
         r = rng.random()
@@ -521,6 +765,8 @@ def gen_case(ctx, rng, exact, quick):
             c1, d1 = lat[j] - rng.choice(ex), lat[j] + rng.choice(ex)
             e1, f1 = lon[j] - rng.choice(ex), lon[j] + rng.choice(ex)
             i0, i1 = sorted((rng.randrange(T), rng.randrange(T)))
+            if daily and rng.random() < 0.7:
+                i0, i1 = rng.randrange(0, 3), T - 1 - rng.randrange(0, 3)
             a, b = time[i0] - rng.choice([0, 0, tstep / 2]), time[i1] + rng.choice([0, 0, tstep / 2])
             k1 = k2 = k3 = "anchored"
             if a == b:
@@ -532,32 +778,55 @@ def gen_case(ctx, rng, exact, quick):
         return dict(zip(WKEYS, (a, b, c1, d1, e1, f1))), (k1, k2, k3)
 
     init = "G"
-    if rng.random() < 0.25:
+    if rng.random() < 0.25 and not cls.startswith("Small"):
         w, kinds = gen_window()
         init = enc_win(w)
     ops = []
     nwin = rng.randrange(1, 5 if quick else 11)
-    queries = ["o", "g", "w"] + (["pm", "an", "pi"] if cls == "ClimateData" else [])
+    if daily:
+        nwin = min(nwin, 3)
+    queries = ["o", "g", "w"] + (["pm", "an", "pi"] if climate else [])
+
+    def some_phases(n, lo, hi):
+        """mostly valid numbers of [-n, n), sometimes just outside"""
+        out = []
+        for _ in range(rng.randrange(lo, hi + 1)):
+            r = rng.random()
+            if r < 0.7:
+                out.append(rng.randrange(n))
+            elif r < 0.93:
+                out.append(-rng.randrange(1, n + 1))
+            else:
+                out.append(rng.choice([n, -n - 1, n + 3]))
+        if any(p < 0 for p in out):
+            ctx.count("selection:negative-numbers")
+        if any(p < -n or p >= n for p in out):
+            ctx.count("selection:out-of-range")
+        return ",".join(map(str, out)) or "-"
 
     def some_queries():
-        qs = [q for q in queries if rng.random() < 0.6]
+        qs = [q for q in queries if rng.random() < (0.3 if daily else 0.6)]
         rng.shuffle(qs)
-        if cls == "ClimateData" and rng.random() < 0.35:
-            k = rng.randrange(0, min(c, 4) + 1)
-            sel = [rng.randrange(c) for _ in range(k)]
-            qs.append("sp=" + (",".join(map(str, sel)) or "-"))
-        if cls == "ClimateData" and (c == 12 or rng.random() < 0.05):
-            sel = [rng.randrange(12) for _ in range(rng.randrange(0, 4))]
-            qs.append("am=" + (",".join(map(str, sel)) or "-"))
-        if cls == "ClimateData" and rng.random() < 0.1:
+        if climate and rng.random() < 0.35:
+            qs.append("sp=" + some_phases(c, 0, min(c, 4)))
+        if climate and (c in (12, 360) or rng.random() < 0.05):
+            qs.append(rng.choice(["am=", "am=", "im="]) + some_phases(12, 0, 3))
+        if climate and rng.random() < 0.12:
+            qs.append(f"sh:{rng.randrange(10 ** 6)}")
+            ctx.count("op:shuffled_anomaly")
+        if climate and rng.random() < 0.1:
             qs.append("X")
         return qs
 
     ops += some_queries()
     for _ in range(nwin):
-        if rng.random() < 0.2:
+        r = rng.random()
+        if r < 0.2:
             ops.append("G")
             ctx.count("op:set_global_window")
+        elif r < 0.3:
+            ops.append("Wc")
+            ctx.count("op:set_window(window())")
         else:
             w, kinds = gen_window()
             ops.append(enc_win(w))
@@ -565,14 +834,30 @@ def gen_case(ctx, rng, exact, quick):
             for ax, k in zip(("time", "lat", "lon"), kinds):
                 ctx.count(f"window:{ax}:{k}")
         ops += some_queries()
+        if rng.random() < 0.06:
+            ops.append("N")
+            ctx.count("op:nested-constructor")
+            ops += some_queries()
     if rng.random() < 0.5:
-        ops += ["G", "o", "g"] + (["pm", "an"] if cls == "ClimateData" else [])
+        ops += ["G", "o", "g"] + (["pm", "an"] if climate else [])
+    gdtype = "float32" if rng.random() < 0.3 else "float64"
+    layout = rng.choice(["C", "C", "F", "strided"])
+    btype = rng.choice(["float", "float", "int", "np32", "np64", "mixed"])
+    scale = None
+    if dtype == "float64" and rng.random() < 0.4:
+        scale = (rng.choice([-100, -40, -1, 1, 10, 40, 100]), rng.choice([-60, -7, 0, 3, 40, 80]))
+        ctx.count("oracle:rescaled-twin")
     ctx.count(f"class:{cls}")
-    ctx.count("cycle:" + ("divides" if T % c == 0 else "exceeds" if c > T else "not-dividing"))
+    ctx.count("cycle:" + ("divides" if T % c == 0 else "exceeds" if c > T else "not-dividing")
+              + (":360" if daily else ""))
     ctx.count(f"anomalies_flag:{flag}")
     ctx.count(f"dtype:{dtype}")
+    ctx.count(f"grid-dtype:{gdtype}")
+    ctx.count(f"layout:{layout}")
+    ctx.count(f"bounds-type:{btype}")
     return {"cls": cls, "c": c, "flag": flag, "init": init, "time": time, "lat": lat,
-            "lon": lon, "obs": obs, "dtype": dtype, "ops": ops}
+            "lon": lon, "obs": obs, "dtype": dtype, "ops": ops, "gdtype": gdtype,
+            "layout": layout, "btype": btype, "scale": scale}
 
 
 def edge_cases():
@@ -605,6 +890,30 @@ def edge_cases():
     out.append(dict(base, c=12, time=t12, obs=[[float(360360 * ((i * 7 + j) % 5)) for j in range(3)]
                                               for i in range(26)],
                     ops=["am=0,1", "am=11", "W=1,24,0,0,0,0", "am=0,5", "pi", "am=12", "sp=12"]))
+    # round 2: wrapping / out-of-range phase numbers, set_window(window()), nested objects,
+    # shuffled anomalies, caller arrays of both widths / layouts, bounds as NumPy scalars
+    hs2 = [
+        ["sp=-1,0", "sp=-3", "sp=3", "sp=-4", W, "sp=-1", "Wc", "o", "g", "pm", "an", "sh:7"],
+        [W, "N", "o", "g", "w", "pm", "an", "W=2,4,0,5,0,5", "o", "an", "G", "o", "N", "an"],
+        ["W=3,3,0,5,1,2", "Wc", "o", "g", "W=2,2,5,5,0,9", "Wc", "o", "w"],
+        ["W=2,2,5,5,2,2", "Wc", "o", "g", "w", "sh:1", "X", "sh:2"],
+    ]
+    for n, h in enumerate(hs2):
+        out.append(dict(base, ops=list(h), gdtype=("float32", "float64")[n % 2],
+                        layout=("F", "strided", "C")[n % 3], btype=("np32", "mixed", "int", "np64")[n % 4],
+                        scale=(40, -7)))
+        out.append(dict(base, flag=1, c=2, ops=list(h), dtype="float32", btype="int"))
+    out.append(dict(base, cls="Data", ops=[W, "Wc", "o", "N", "g", "w", "W=2,4,0,5,0,5", "o", "G", "o"],
+                    layout="strided", btype="np32", scale=(-100, 80)))
+    out.append(dict(base, c=12, time=t12, dtype="int64",
+                    obs=[[float(360360 * ((i * 7 + j) % 5)) for j in range(3)] for i in range(26)],
+                    ops=["am=-1,0", "im=-12,11", "im=12", "im=-13", "W=1,24,0,0,0,0", "am=-1", "im=0,0"]))
+    t360 = [float(i) / 4 for i in range(725)]
+    o360 = [[float(6 * ((i * 7 + 3 * j) % 11 - 5)) for j in range(2)] for i in range(725)]
+    out.append(dict(base, c=360, time=t360, lat=[0.0, 5.0], lon=[1.0, 2.0], obs=o360,
+                    ops=["im=0", "im=-1,1", "am=11", "im=12", "pi", "W=1/4,181,0,0,0,0", "im=0,11",
+                         "am=-12", "W=1/4,90,0,0,0,0", "im=3", "am=3", "pm", "sp=359,-360", "sp=360"]))
+    out.append(dict(base, c=7, time=t12, obs=[[float(i)] * 3 for i in range(26)], ops=["im=1", "am=1"]))
     return out
 
 
@@ -614,14 +923,18 @@ def run(ctx):
     rng = ctx.rng
     quick = ctx.tier == "quick"
     ctx.rule = ("case = (class, cycle, anomalies flag, constructor window, irregular float32-exact "
-                "grid, observable, history of set_window / set_global_window / cache_clear and "
-                "queries); distinct = distinct canonical request; non-trivial = at least one "
-                "window change that keeps some but not all samples")
+                "grid, observable, history of set_window / set_global_window / set_window(window()) / "
+                "nested constructor / cache_clear and queries); distinct = distinct canonical "
+                "request; non-trivial = at least one window change that keeps some but not all samples")
     ctx.trusted = common.DEFAULT_TRUSTED + [
         "NumPy boolean-mask / strided indexing, ndarray.min/max/mean, float32 comparison of "
         "float32-exact values: modelled as their mathematical operations on rationals",
         "functools.lru_cache keyed by (id, _mut_window): modelled as an association list with "
         "arbitrary eviction",
+        "numpy.random.shuffle applies a permutation that depends only on the generator state and the "
+        "length (the harness replays it on range(T) and sends the permutation to the model)",
+        "int(T / time_cycle) on floats equals floor(T / time_cycle) for the record lengths used "
+        "(T < 2^53 / time_cycle)",
     ]
     ctx.assumptions = [
         "coordinates and window bounds are float32-exact (NumPy 2 compares a float32 array with a "
@@ -645,15 +958,18 @@ def run(ctx):
 
     reqs, impl, exacts = [], [], []
     for case, exact in cases:
-        reqs.append(request_of(case))
         nfail = len(ctx.failures)
-        impl.append(run_case(ctx, case, exact, oracle=True))
+        out, concrete = run_case(ctx, case, exact, oracle=True)
+        impl.append(out)
+        reqs.append(request_of(case, concrete))
         if len(ctx.failures) > nfail and ctx.extra.get("shrunk", 0) < 12:
             shrink_failures(ctx, case, exact, nfail)
         exacts.append(exact)
         full = len(case["time"]) * len(case["lat"])
         nontriv = False
         for tok in case["ops"]:
+            if tok == "N":
+                break       # the full data set changes
             if tok.startswith("W="):
                 v = expected_view(case, win_of_token(tok))
                 if v is None:
@@ -673,13 +989,13 @@ def run(ctx):
 
     model = common.driver(ctx.pid, reqs)
     bad = [i for i in range(len(reqs))
-           if not same(model[i], impl[i], 0 if exacts[i] else TOL)]
+           if not same(model[i], impl[i], *tol_of(cases[i][0], exacts[i]))]
 
     def first_diff(i):
         a, b = model[i].split("|"), impl[i].split("|")
         ops = ["<init>"] + cases[i][0]["ops"]
         for k, (x, y) in enumerate(zip(a, b)):
-            if not same(x, y, 0 if exacts[i] else TOL):
+            if not same(x, y, *tol_of(cases[i][0], exacts[i])):
                 return f"op#{k} {ops[k]}: model={x[:160]} impl={y[:160]}"
         return f"lengths {len(a)}/{len(b)}"
 
@@ -734,5 +1050,7 @@ def shrink_failures(ctx, case, exact, nfail):
 def replay(ctx, rp):
     case = rp["replay"]
     case = {k: case[k] for k in ("cls", "c", "flag", "init", "time", "lat", "lon", "obs",
-                                 "dtype", "ops")}
+                                 "dtype", "ops", "gdtype", "layout", "btype", "scale") if k in case}
+    if case.get("scale"):
+        case["scale"] = tuple(case["scale"])
     run_case(ctx, case, False, oracle=True)
